@@ -300,12 +300,18 @@ class ComponentContext(Context):
                 self._format_resource_description(type, name),
             )
 
-            # Wait until a matching resource or resource factory is available
-            await self._context.resource_added.wait_event(
-                lambda event: event.resource_name == name
-                and type in event.resource_types,
-            )
-            res = await self._context.get_resource(type, name)
+            # Wait until a matching resource or resource factory is available. The
+            # lookup is retried after every resource event instead of waiting for one
+            # matching event, as that event could be dropped from the listener's queue
+            # if enough other resources are added before this task gets to run again.
+            while True:
+                await self._context.resource_added.wait_event()
+                try:
+                    res = await self._context.get_resource(type, name)
+                    break
+                except ResourceNotFound:
+                    pass
+
             logger.debug(
                 "%s got the resource it was waiting for (%s)",
                 format_component_name(self.path, capitalize=True),
